@@ -16,7 +16,7 @@ func mainLoop(L *LState, baseframe *callFrame) {
 
 	L.currentFrame = L.stack.Last()
 	if L.currentFrame.Fn.IsG {
-		callGFunction(L, false)
+		callGFunction(L, false, baseframe)
 		return
 	}
 
@@ -40,7 +40,7 @@ func mainLoopWithContext(L *LState, baseframe *callFrame) {
 
 	L.currentFrame = L.stack.Last()
 	if L.currentFrame.Fn.IsG {
-		callGFunction(L, false)
+		callGFunction(L, false, baseframe)
 		return
 	}
 
@@ -102,7 +102,7 @@ func switchToParentThread(L *LState, nargs int, haserror bool, kill bool) {
 	}
 }
 
-func callGFunction(L *LState, tailcall bool) bool {
+func callGFunction(L *LState, tailcall bool, baseframe *callFrame) bool {
 	frame := L.currentFrame
 	gfnret := frame.Fn.GFunction(L)
 	if tailcall {
@@ -110,6 +110,11 @@ func callGFunction(L *LState, tailcall bool) bool {
 	}
 
 	if gfnret < 0 {
+		if baseframe != nil {
+			// this loop was entered from a host function or a metamethod call;
+			// the Go frames in between cannot be suspended
+			L.RaiseError("attempt to yield across metamethod/C-call boundary")
+		}
 		switchToParentThread(L, L.GetTop(), false, false)
 		return true
 	}
@@ -583,7 +588,7 @@ func init() {
 				callable, meta = L.metaCall(lv)
 			}
 			// +inline-call L.pushCallFrame callFrame{Fn:callable,Pc:0,Base:RA,LocalBase:RA+1,ReturnBase:RA,NArgs:nargs,NRet:nret,Parent:cf,TailCall:0} lv meta
-			if callable.IsG && callGFunction(L, false) {
+			if callable.IsG && callGFunction(L, false, baseframe) {
 				return 1
 			}
 			return 0
@@ -625,7 +630,7 @@ func init() {
 					Parent:     cf,
 					TailCall:   0,
 				}, lv, meta)
-				if callGFunction(L, true) {
+				if callGFunction(L, true, baseframe) {
 					return 1
 				}
 				if L.currentFrame == nil || L.currentFrame.Fn.IsG || luaframe == baseframe {
